@@ -185,6 +185,11 @@ type bindPools struct {
 	// next one wants to be asked about
 	freshB [][]byte
 	freshI []*big.Int
+	// deep: in some runs every reader is asked about every fresh value (newest
+	// first) until three calls HALTed with something in the answer — ids handed
+	// out late by a lister reach the getter that wants them, and a getter sees
+	// more than the first (often empty or one-element) answer
+	deep bool
 }
 
 // feed adds the leaves of a result to the pools of fresh values.
@@ -194,7 +199,7 @@ func (p *bindPools) feed(it stackitem.Item) {
 		return
 	}
 	for _, x := range l {
-		if len(x.b) == 0 || len(x.b) > 80 || len(p.freshB) > 40 {
+		if len(x.b) == 0 || len(x.b) > 80 {
 			continue
 		}
 		dup := false
@@ -210,6 +215,13 @@ func (p *bindPools) feed(it stackitem.Item) {
 		if len(x.b) <= 8 {
 			p.freshI = append(p.freshI, bigint.FromBytes(x.b))
 		}
+	}
+	// the newest answers are what the next method wants: the oldest go
+	if n := len(p.freshB); n > 110 {
+		p.freshB = append([][]byte(nil), p.freshB[n-110:]...)
+	}
+	if n := len(p.freshI); n > 40 {
+		p.freshI = append([]*big.Int(nil), p.freshI[n-40:]...)
 	}
 }
 
@@ -263,6 +275,18 @@ func harvest(w *World, d *Deployed) *bindPools {
 	p.h256 = append(p.h256, util.Uint256{1})
 	p.strs = append(p.strs, "neofs", "netmap.neofs", "container", "a.b", "x")
 	p.keys = append(p.keys, w.Pubs[0])
+	if nm := w.C["netmap"]; nm != nil {
+		// epoch-keyed stores are asked about the epochs that exist
+		if it, err := w.readNoHook(nm.Hash, "epoch"); err == nil {
+			if e, err := it.TryInteger(); err == nil && e.IsInt64() {
+				for _, dlt := range []int64{0, -1, 1, -2, -3} {
+					if v := e.Int64() + dlt; v >= 0 {
+						p.ints = append(p.ints, big.NewInt(v))
+					}
+				}
+			}
+		}
+	}
 	for _, v := range []int64{0, 1, 2, 3, 16, 100} {
 		p.ints = append(p.ints, big.NewInt(v))
 	}
@@ -282,11 +306,24 @@ func (p *bindPools) value(t reflect.Type, try int) reflect.Value {
 	case reflect.TypeOf(util.Uint256{}):
 		return reflect.ValueOf(p.h256[pick(len(p.h256))])
 	case reflect.TypeOf((*big.Int)(nil)):
+		if p.deep {
+			// every value once: the newest answers first, then the pool
+			if n := len(p.freshI); try < n {
+				return reflect.ValueOf(p.freshI[n-1-try])
+			}
+			return reflect.ValueOf(p.ints[(try-len(p.freshI))%len(p.ints)])
+		}
 		if try%3 != 2 && len(p.freshI) > 0 {
 			return reflect.ValueOf(p.freshI[(try/3+try%3)%len(p.freshI)])
 		}
 		return reflect.ValueOf(p.ints[pick(len(p.ints))])
 	case reflect.TypeOf([]byte(nil)):
+		if p.deep {
+			if n := len(p.freshB); try < n {
+				return reflect.ValueOf(p.freshB[n-1-try])
+			}
+			return reflect.ValueOf(p.bytes[(try-len(p.freshB))%len(p.bytes)])
+		}
 		if try%3 != 2 && len(p.freshB) > 0 {
 			return reflect.ValueOf(p.freshB[(try/3+try%3)%len(p.freshB)])
 		}
@@ -363,6 +400,41 @@ func bindScript(r *Run, w *World, d *Deployed, man *manifest.Manifest, goName st
 	return false
 }
 
+// emptyAnswer: nothing, an empty string or an empty list.
+func emptyAnswer(it stackitem.Item) bool {
+	if it == nil {
+		return true
+	}
+	switch v := it.Value().(type) {
+	case []stackitem.Item:
+		return len(v) == 0
+	case []byte:
+		return len(v) == 0
+	}
+	return false
+}
+
+// nestedListLen: the length of the longest array found inside a struct/array
+// result (0 for a flat result).
+func nestedListLen(it stackitem.Item) int {
+	arr, ok := it.Value().([]stackitem.Item)
+	if !ok {
+		return 0
+	}
+	best := 0
+	for _, x := range arr {
+		if in, ok := x.Value().([]stackitem.Item); ok {
+			if _, isStruct := x.(*stackitem.Struct); !isStruct && len(in) > best {
+				best = len(in)
+			}
+			if n := nestedListLen(x); n > best {
+				best = n
+			}
+		}
+	}
+	return best
+}
+
 var genMethods = map[string]map[string]bool{}
 
 var reGenMethod = regexp.MustCompile(`(?m)^func \(c \*Contract(?:Reader)?\) ([A-Za-z0-9_]+)\(`)
@@ -392,6 +464,7 @@ func bindingsPass(r *Run, w *World) {
 		}
 	}
 	sort.Strings(keysSorted)
+	deep := Chance(r.T, "deepBindings", 35)
 	for _, k := range keysSorted {
 		d := w.C[k]
 		ctor := bindCtors[d.Repo]
@@ -406,6 +479,7 @@ func bindingsPass(r *Run, w *World) {
 		typ := obj.Type()
 		// twice: the second pass asks with what the first one was given
 		for pass := 0; pass < 2; pass++ {
+			pools.deep = deep
 			for i := 0; i < typ.NumMethod(); i++ {
 				m := typ.Method(i)
 				bindOne(r, a, obj, m, d, man, pools)
@@ -418,11 +492,24 @@ func bindOne(r *Run, a *bindActor, obj reflect.Value, m reflect.Method, d *Deplo
 	mt := m.Type
 	isReader := true
 	tries := 12
-	halted := false
-	for try := 0; try < tries && !halted; try++ {
+	halts, wantHalts := 0, 1
+	if pools.deep && mt.NumIn() > 1 {
+		tries = min(12+max(len(pools.freshB), len(pools.freshI)), 124)
+		wantHalts = 3
+	}
+	for try := 0; try < tries && halts < wantHalts; try++ {
 		args := []reflect.Value{obj}
 		for j := 1; j < mt.NumIn(); j++ {
 			if mt.IsVariadic() && j == mt.NumIn()-1 {
+				continue
+			}
+			if pools.deep {
+				// the first argument sweeps, the others step slowly
+				if j == 1 {
+					args = append(args, pools.value(mt.In(j), try))
+				} else {
+					args = append(args, pools.value(mt.In(j), try/4+j))
+				}
 				continue
 			}
 			args = append(args, pools.value(mt.In(j), try+j*7))
@@ -501,7 +588,11 @@ func bindOne(r *Run, a *bindActor, obj reflect.Value, m reflect.Method, d *Deplo
 				continue
 			}
 			if c.halted {
-				halted = true
+				// (in a deep pass an empty answer does not count: the sweep goes
+				// on to an argument the contract knows something about)
+				if !pools.deep || !emptyAnswer(c.item) {
+					halts++
+				}
 				if c.item != nil {
 					pools.feed(c.item)
 				}
@@ -523,6 +614,10 @@ func bindOne(r *Run, a *bindActor, obj reflect.Value, m reflect.Method, d *Deplo
 				r.Cell("C15.bindings.decoded", d.Repo+"."+m.Name)
 				// … and decoded to what the contract returned, field by field
 				if c.item != nil && c.kind == "call" && len(a.calls) == 1 && len(outs) == 2 && generatedMethod(d.Repo, m.Name) {
+					if nestedListLen(c.item) >= 2 {
+						// (aliasing between decoded elements only shows with several)
+						r.Count("probe.binding_decoded_nested_list_of_several")
+					}
 					same, cmp, why := sameLeaves(outs[0], c.item)
 					switch {
 					case !cmp:
